@@ -31,6 +31,77 @@ DOC_BUILTINS = {"String", "&str", "str", "i8", "i16", "i32", "i64", "i128", "isi
                 "char", "HashMap", "BTreeMap", "HashSet", "BTreeSet", "Vec", "Option", "Result", "Box", "Rc", "Arc"}
 
 
+def model_fields_in_slice(P, f, op, depth=10):
+    """model fields (`CommandInfo.return_type`, ..) read anywhere in the backward slice of a value, including inside the closures handed to the
+    iterator adapters on the way (`cmd.parameters.iter().map(|p| p.rust_type.as_str()).chain(once(cmd.return_type.as_str()))`): the fields a
+    harvested iterator element can come from"""
+    import json as _json
+    out = set()
+    seen = set()
+
+    def fields_of_fn(g):
+        txt = _json.dumps([b_["stmts"] for i_, b_ in enumerate(g.blocks) if i_ in g.reach_blocks] + [b_["term"].get("args") for i_, b_ in enumerate(g.blocks) if i_ in g.reach_blocks])
+        for m_ in re.finditer(r'"adt": "tauri_typegen::models::(\w+)"[^{}]*?"name": "(\w+)"', txt):
+            out.add("%s.%s" % (m_.group(1), m_.group(2)))
+        for m_ in re.finditer(r'"name": "(\w+)"[^{}]*?"adt": "tauri_typegen::models::(\w+)"', txt):
+            out.add("%s.%s" % (m_.group(2), m_.group(1)))
+
+    def go(g, o, d):
+        if d < 0:
+            return
+        t = o[0]
+        if t == "proj":
+            for pj in o[2]:
+                m_ = re.match(r"tauri_typegen::models::(\w+)(?:::\w+)?\.(\w+)$", pj)
+                if m_:
+                    out.add("%s.%s" % (m_.group(1), m_.group(2)))
+            go(g, o[1], d)
+        elif t == "call":
+            k_ = (o[1].fn.id, o[1].bb)
+            if k_ in seen:
+                return
+            seen.add(k_)
+            for a_ in o[1].args[:6]:
+                go(o[1].fn, o[1].fn.origin(a_), d - 1)
+        elif t in ("aggr", "const") and isinstance(o[1], dict):
+            cid = o[1].get("closure")
+            if cid in P.fns and cid not in seen:
+                seen.add(cid)
+                for k2 in P.family(cid):
+                    if "{promoted" not in k2:
+                        fields_of_fn(P.fns[k2])
+            # a function handed over by name (`.flat_map(CommandInfo::rust_types)`)
+            fnc = o[1].get("fn") if isinstance(o[1].get("fn"), dict) else None
+            tgt = (fnc or {}).get("resolved") or (fnc or {}).get("path")
+            if tgt in P.fns and tgt not in seen:
+                seen.add(tgt)
+                for k2 in P.family(tgt):
+                    if "{promoted" not in k2:
+                        fields_of_fn(P.fns[k2])
+            for a_ in o[1].get("ops", [])[:12]:
+                go(g, g.origin(a_), d - 1)
+        elif t == "multi":
+            for x in o[2]:
+                go(g, x, d - 1)
+    o0 = f.origin(op)
+    go(f, o0, depth)
+    # the value is the parameter of a closure: it is an element of whatever the adapter that was handed the closure iterates
+    r0 = o0
+    while r0[0] == "proj":
+        r0 = r0[1]
+    if r0[0] == "arg" and "::{closure" in f.id and depth > 2:
+        parent = f.id.rsplit("::{closure", 1)[0]
+        for k2, g2 in P.fns.items():
+            if k2 != parent and parent not in {b_.get("inl") for b_ in g2.d.get("blocks", [])}:
+                continue
+            for c2 in g2.calls:
+                for a_ in c2.args[1:]:
+                    oa = g2.origin(a_)
+                    if oa[0] in ("aggr", "const") and isinstance(oa[1], dict) and oa[1].get("closure") == f.id and c2.args:
+                        out |= model_fields_in_slice(P, g2, c2.args[0], depth - 2)
+    return out
+
+
 def check_builtin_table(S, rule):
     """the names the harvester never looks up (TypeResolver's built-in type set) are the documented primitives and containers only: any other name in
     that table hides a project type of the same name from discovery; shared by C07-D1 and C02-D4"""
@@ -359,13 +430,15 @@ def check(ctx):
             sp = short_path(c.best)
             if sp in ("CommandAnalyzer::extract_type_names", "CommandAnalyzer::extract_type_names_recursive") and len(c.args) > 1:
                 t = f.describe_origin(f.origin(c.args[1]), short=False, deep=3)
+                via = model_fields_in_slice(P, f, c.args[1])
                 for k in SEED_FIELDS:
-                    if "models::" + k in t:
+                    if "models::" + k in t or k in via:
                         seen.setdefault(k, short_path(fid))
             if sp == "TypeCollector::collect_referenced_types_from_structure" and c.args:
                 t = f.describe_origin(f.origin(c.args[0]), short=False, deep=3)
+                via = model_fields_in_slice(P, f, c.args[0])
                 for k in STRUCT_FIELDS:
-                    if "models::" + k in t:
+                    if "models::" + k in t or k in via:
                         seen2.setdefault(k, short_path(fid))
     TRUNC = {"take", "skip", "step_by", "take_while", "skip_while", "nth", "last", "rev"}
     for fid in sorted(reach):
